@@ -15,6 +15,18 @@ class BadStr(Exception):
         raise RuntimeError('__str__ failed')
 
 
+class Unhashable(Exception):
+    """An exception type that defines equality and therefore has no hash (like a @dataclass exception)."""
+    def __eq__(self, other):
+        return type(other) is type(self) and other.args == self.args
+    __hash__ = None
+
+
+class BadHash(Exception):
+    def __hash__(self):
+        raise TypeError('no hash today')
+
+
 class BadRepr(Exception):
     def __repr__(self):
         raise RuntimeError('__repr__ failed')
@@ -34,6 +46,13 @@ def make_exc(name, msg='boom'):
         return BadStr(msg)
     if name == 'BadRepr':
         return BadRepr(msg)
+    if name == 'Unhashable':
+        return Unhashable(msg)
+    if name == 'BadHash':
+        return BadHash(msg)
+    if name == 'XLUnhashable':
+        cls = type('XLUnhashableError', (E.XLError,), {'__eq__': lambda a, b: a is b, '__hash__': None})
+        return cls('#N/A')
     if name == 'KeyError':
         return KeyError(msg)
     if name == 'UnicodeDecodeError':
@@ -85,7 +104,7 @@ EXC_CATALOGUE = [
     'NoArgs', 'TupleArgs', 'Exception',
     'Arg:dict', 'Arg:list', 'Arg:set', 'Arg:none', 'Arg:int', 'Arg:bytes', 'Arg:exc', 'Arg:nested', 'Arg:float',
     'Arg:tuple', 'Arg:bool', 'Arg:obj', 'Arg:code', 'Arg:codelist', 'Arg:surrogate',
-    'XLArg:dict', 'XLArg:list', 'XLArg:none', 'XLArg:int', 'XLArg:two',
+    'XLArg:dict', 'XLArg:list', 'XLArg:none', 'XLArg:int', 'XLArg:two', 'Unhashable', 'BadHash', 'XLUnhashable',
 ]
 
 
